@@ -1141,6 +1141,19 @@ impl ConstElem for ValueKind {
     }
   }
   fn from_le(bytes: &[u8]) -> Self {
+    ValueKind::from_le_nested(bytes, 0)
+  }
+  fn value_kind(&self) -> ValueKind { self.clone() }
+  fn align() -> u8 { 1 }
+}
+
+impl ValueKind {
+  // An encoded kind nests one level per matrix, set or table-column kind. The encoder never gets
+  // anywhere near this depth; a hostile file can ask for one level per byte and exhaust the stack.
+  const MAX_ENCODED_NESTING: usize = 64;
+
+  fn from_le_nested(bytes: &[u8], depth: usize) -> Self {
+    assert!(depth <= Self::MAX_ENCODED_NESTING, "value kind nested too deeply");
     let mut cursor = Cursor::new(bytes);
     let tag = cursor.read_u8().expect("read value kind tag");
 
@@ -1168,7 +1181,7 @@ impl ConstElem for ValueKind {
       20 => ValueKind::Any,
       #[cfg(feature = "matrix")]
       21 => {
-        let elem_vk = ValueKind::from_le(&bytes[cursor.position() as usize..]);
+        let elem_vk = ValueKind::from_le_nested(&bytes[cursor.position() as usize..], depth + 1);
         cursor.set_position(cursor.position() + 1); // advance past elem_vk tag
         let dim_count = cursor.read_u32::<LittleEndian>().expect("read matrix dim count") as usize;
         let mut dims = Vec::with_capacity(dim_count.min(bytes.len()));
@@ -1194,7 +1207,7 @@ impl ConstElem for ValueKind {
           let mut buf = Vec::new();
           name.write_le(&mut buf);
           cursor.set_position(cursor.position() + buf.len() as u64);
-          let vk = ValueKind::from_le(&bytes[cursor.position() as usize..]);
+          let vk = ValueKind::from_le_nested(&bytes[cursor.position() as usize..], depth + 1);
           let mut buf = Vec::new();
           vk.write_le(&mut buf);
           cursor.set_position(cursor.position() + buf.len() as u64);
@@ -1205,7 +1218,7 @@ impl ConstElem for ValueKind {
       }
       #[cfg(feature = "set")]
       29 => {
-        let elem_vk = ValueKind::from_le(&bytes[cursor.position() as usize..]);
+        let elem_vk = ValueKind::from_le_nested(&bytes[cursor.position() as usize..], depth + 1);
         cursor.set_position(cursor.position() + 1);
         let size_flag = cursor.read_u8().expect("read set size flag");
         let opt_size = if size_flag != 0 {
@@ -1218,8 +1231,6 @@ impl ConstElem for ValueKind {
       x => unimplemented!("from_le not implemented for this ValueKind variant: {:?}", x),
     }
   }
-  fn value_kind(&self) -> ValueKind { self.clone() }
-  fn align() -> u8 { 1 }
 }
 
 // helper to read a length-prefixed string from cursor
